@@ -16,7 +16,7 @@ from lark import Tree
 
 from mc import dbe, decobs
 from mc.bfs import bfs
-from mc.core import pmap, short_hash
+from mc.core import pmap, short_hash, run_tasks
 from props.deccommon import check_ast
 from ref import decmodel
 
@@ -315,8 +315,7 @@ def run(ctx):
     stats = {}
     items = [(list(ch), nd, ast) for ch, nd, ast in dbe.explore(gen_copy, bound, stats)]
     ctx.log(f"A: {len(items)} CopyDecay scenarios with <= {bound} deviations")
-    for r in pmap(work_copy, [items[i:i + 20] for i in range(0, len(items), 20)], ctx.workers):
-        ctx.absorb(r)
+    run_tasks(ctx, work_copy, [items[i:i + 20] for i in range(0, len(items), 20)])
     ctx.count(states=stats["nodes"], transitions=stats["choices"])
     ctx.part("A-copydecay", scenarios=len(items), deviation_bound=bound, per_dimension_max=stats["per_dimension_max"])
     ctx.sample({"part": "A", "text": decmodel.render(items[-1][2])})
